@@ -30,7 +30,12 @@ void* STR(9_M_createERmm)(void* self, uint64_t* cap, uint64_t old){
 static void set_len(struct vstr* s, uint64_t n){ s->len = n; s->p[n] = 0; }
 static void dispose(struct vstr* s){ if (!is_local(s)) _ZdlPv(s->p); }
 /* _M_mutate(pos, len1, s, len2): reallocate and splice */
+void vll_forbidden(void);
 void STR(9_M_mutateEmmPKcm)(struct vstr* self, uint64_t pos, uint64_t len1, const char* s, uint64_t len2){
+#if defined(__CPROVER__) && defined(VLL_STR_NOGROW)
+  /* queries whose strings provably stay within their reserved capacity: growing is reported instead of explored */
+  vll_forbidden(); __CPROVER_assume(0);
+#endif
   uint64_t how_much = self->len - pos - len1;
   uint64_t new_cap = self->len + len2 - len1;
   char* r = (char*)STR(9_M_createERmm)(self, &new_cap, capacity(self));
